@@ -127,7 +127,16 @@ func init() {
 }
 
 func init() {
-	Checks["C20"] = &Check{Level: "model_checking", Run: CheckC20, QuickBudget: 300, ThoroughBudget: 1800}
+	Checks["C20"] = &Check{Level: "model_checking", Run: CheckC20, QuickBudget: 300, ThoroughBudget: 1800,
+		ReplayBody: func(h string) explore.Body {
+			for _, sc := range c20SchedScenarios() {
+				if "C20s/"+sc.name == h {
+					sc := sc
+					return sc.c20Body
+				}
+			}
+			return nil
+		}}
 }
 
 func init() {
